@@ -23,7 +23,7 @@ from __future__ import annotations
 
 import math
 from collections.abc import Callable, Iterator, Mapping, Sequence
-from functools import cached_property, reduce
+from functools import cached_property
 from typing import Any, cast, TYPE_CHECKING, TypeAlias
 
 import numpy as np
@@ -309,10 +309,15 @@ class CircuitOperation(ops.Operation):
         if len(self.qubits) > 1 or not protocols.has_unitary(self):
             return NotImplemented
 
-        unitaries = [protocols.unitary(op) for op in self.circuit.all_operations()]
+        circuit = self.circuit
+        if self.param_resolver:
+            circuit = protocols.resolve_parameters(circuit, self.param_resolver, recursive=False)
+        unitaries = [protocols.unitary(op) for op in circuit.all_operations()]
         dim = max((u.shape for u in unitaries), default=(1,))[0]
         u = np.eye(dim, dtype=np.complex128)
-        u = reduce(lambda u1, u2: np.dot(u1, u2, out=u), reversed(unitaries), u)
+        for v in unitaries:
+            # Later operations multiply from the left; zero-qubit operations are 1x1 scalars.
+            u = np.dot(v, u) if v.shape == u.shape else v[0, 0] * u
 
         if self.repetitions != 1:
             u = np.linalg.matrix_power(u, self.repetitions)
